@@ -26,11 +26,11 @@ func ParseCert(der []byte) (*Cert, error) {
 	return c, nil
 }
 
-func (c *Cert) Clone() *Cert   { return &Cert{Root: c.Root.Clone()} }
-func (c *Cert) Bytes() []byte  { return c.Root.Bytes() }
-func (c *Cert) TBS() *Node     { return c.Root.Children[0] }
+func (c *Cert) Clone() *Cert    { return &Cert{Root: c.Root.Clone()} }
+func (c *Cert) Bytes() []byte   { return c.Root.Bytes() }
+func (c *Cert) TBS() *Node      { return c.Root.Children[0] }
 func (c *Cert) OuterAlg() *Node { return c.Root.Children[1] }
-func (c *Cert) Sig() *Node     { return c.Root.Children[2] }
+func (c *Cert) Sig() *Node      { return c.Root.Children[2] }
 
 func (c *Cert) base() int {
 	k := c.TBS().Children
@@ -44,12 +44,12 @@ func (c *Cert) setField(i int, n *Node) {
 	c.TBS().Children[c.base()+i] = n
 }
 
-func (c *Cert) Serial() *Node   { return c.field(0) }
-func (c *Cert) InnerAlg() *Node { return c.field(1) }
-func (c *Cert) Issuer() *Node   { return c.field(2) }
-func (c *Cert) Validity() *Node { return c.field(3) }
-func (c *Cert) Subject() *Node  { return c.field(4) }
-func (c *Cert) SPKI() *Node     { return c.field(5) }
+func (c *Cert) Serial() *Node      { return c.field(0) }
+func (c *Cert) InnerAlg() *Node    { return c.field(1) }
+func (c *Cert) Issuer() *Node      { return c.field(2) }
+func (c *Cert) Validity() *Node    { return c.field(3) }
+func (c *Cert) Subject() *Node     { return c.field(4) }
+func (c *Cert) SPKI() *Node        { return c.field(5) }
 func (c *Cert) SetIssuer(n *Node)  { c.setField(2, n) }
 func (c *Cert) SetSubject(n *Node) { c.setField(4, n) }
 func (c *Cert) SetSPKI(n *Node)    { c.setField(5, n) }
